@@ -71,7 +71,7 @@ Proof.
 Qed.
 
 (* the common dtype is the dtype of one of the parts and absorbs the dtype of every part
-   (bool < int < float; strings only with strings) *)
+   (bool < int < float < str) *)
 Lemma promote2_in : forall a e d, promote2 a e = Some d -> d = a \/ d = e.
 Proof. destruct a, e; simpl; intros d H; inversion H; auto. Qed.
 Lemma promote2_ub : forall a e d, promote2 a e = Some d -> promote2 a d = Some d /\ promote2 e d = Some d.
@@ -95,7 +95,7 @@ Qed.
 
 Example promote_examples :
   promote_all [DBool; DInt] = Some DInt /\ promote_all [DInt; DFloat; DBool] = Some DFloat /\
-  promote_all [DStr; DStr] = Some DStr /\ promote_all [DStr; DInt] = None /\ promote_all [] = None /\
+  promote_all [DStr; DStr] = Some DStr /\ promote_all [DStr; DInt] = Some DStr /\ promote_all [] = None /\
   promote_all [DBool] = Some DBool.
 Proof. repeat split. Qed.
 
